@@ -64,6 +64,26 @@ def _boundary(n, ti, lab):
     return F.boundary_set(n, F.spanning_trees(n)[ti], lab)
 
 
+def kruskal_boundary(n, ew, lab):
+    edges = E.edges(n)
+    parent = list(range(n))
+
+    def find(x):
+        while parent[x] != x:
+            x = parent[x]
+        return x
+
+    out = set()
+    for w, (a, b) in sorted(zip(ew, edges)):
+        ra, rb = find(a), find(b)
+        if ra != rb:
+            parent[ra] = rb
+            if lab[a] != lab[b]:
+                out.add(a)
+                out.add(b)
+    return frozenset(out)
+
+
 def run_case(prog, res=None, model=None):
     try:
         m, Wd = sup.fit_program(prog, model=model)
@@ -77,8 +97,18 @@ def run_case(prog, res=None, model=None):
     nodes = obs["nodes"]
     S = frozenset(i for i in range(len(nodes)) if nodes[i]["status"] == 1)
     ew = [Wd[a][b] for a, b in E.edges(nl)]
-    mins = F.mst_indices(nl, ew)
-    fam = {_boundary(nl, int(ti), lab) for ti in mins}
+    if nl > 7:
+        # too many spanning trees to enumerate: only instances with pairwise distinct weights are
+        # generated at this size, where the minimum spanning tree is unique (Kruskal)
+        if len(set(ew)) != len(ew):
+            if res is not None:
+                res.skip("tied weights at n > 7")
+            return None
+        mins = [0]
+        fam = {kruskal_boundary(nl, ew, lab)}
+    else:
+        mins = F.mst_indices(nl, ew)
+        fam = {_boundary(nl, int(ti), lab) for ti in mins}
     if S not in fam:
         return viol(prog, "flagged prototypes %s; the minimum spanning trees of the labeled "
                     "graph allow only %s" % (sorted(S), sorted(sorted(x) for x in fam)),
